@@ -7,6 +7,19 @@ import re
 
 HERE = os.path.dirname(os.path.dirname(os.path.abspath(__file__)))
 REMARKS = {
+ 'C13_k1': 'first run: MISSED (pointers were always produced by escaping names, so a raw "~" never occurred); a third of the tildes not followed by 0/1 are now spelled raw (same member per RFC 6901 evaluation), names "a~2", "t~", "~", "~~" added',
+ 'C13_k2': 'first run: MISSED (errno was 0 on entry); C12 and C13 shards now also run with a stale errno (ENOMEM/ERANGE/EINVAL/EINTR) on entry to every call',
+ 'C07_k1': 'first run: MISSED (arrays up to 16384 slots); four huge-array histories (2^20 .. 2*10^7 slots) with a sparse model and whole-array digests',
+ 'C07_k2': 'first run: MISSED, same strengthening (json_object_new_array_ext(2*10^7), writes beyond 2^24)',
+ 'C08_k1': 'first run: MISSED (escapes never sat exactly where the tokener scratch buffer grows); parse_token_boundary workloads: \\u escape / short escape / surrogate pair / plain / member name after every L = 0..70, 120..135, 250..260 plain characters',
+ 'C08_k2': 'first run: MISSED (json_object_array_shrink only used to trim); array_reserve workloads reserve/trim under a fault and then add 40 elements and read everything back',
+ 'C18_k1': 'first run: MISSED in the seedtest run, caught in 1 of 340 jobs by hand (barrier wake-ups are microseconds apart, the lost-update window is nanoseconds); the release scenario now spins to a tight rendezvous and runs with 2/3/4/8/16 holders: caught in every run',
+ 'C18_k2': 'first run: MISSED (the seed source never returned -1); VF_SEED_MODE=minus1 trials: the first draw of the process is the library\'s own "unset" sentinel',
+ 'C09_k2': 'first run: MISSED (grow/shrink histories covered containers only); histories now also grow a string for a while and set it back',
+ 'C06_k1': 'first run: MISSED (names were 2-5 bytes long and always at malloc alignment); names of every length 1..48, and the driver passes name pointers at rotating offsets 0..7',
+ 'C06_k2': 'first run: MISSED (enumeration hashes all fitted in 32 bits); lhenum hash kind 6: 64-bit values that differ only above bit 31',
+ 'C02_k2': 'first run: MISSED (set_double never received a value comparing equal to the old one); in-place mutation now sets the other zero / a 1-ulp neighbour on 60% of the doubles it touches',
+ 'C04_k2': 'first run: MISSED (tokens up to 1.5 KB in reset pairs); reset pairs whose first document holds a 64 KiB..200 KB token and whose second holds a 4-70 KB token',
  'C19_j1': 'first run: MISSED (no allocation failures inside print-buffer operations); C19 now injects a failing allocation into 15% of the operations of a third of its histories: the operation must fail with the buffer byte-identical and still terminated',
  'C10_j1': 'first run: MISSED (string nodes always came from json_object_new_string); 40% of C10 string nodes now receive their text through set_string[_len] on an existing node (grown / shrunk / inline / separately allocated)',
  'C10_j2': 'first run: MISSED (no decimal texts in the subnormal band); numeric strings now cover every exponent decade incl. 1e-308..5e-324, the overflow band and %.17g of random doubles (refnum models strtod inf/nan)',
